@@ -132,6 +132,28 @@ def model_observe(m, keys):
     return (m.keys(), look, [m.contains(k) for k in keys], m.length(), m.dump())
 
 
+# The model is a function of (abstract state, operation); both memo tables only avoid recomputing it (they
+# are filled by calling the functions above on a ListModel, and inherited by the forked workers).
+_STEP = {}
+_OBS = {}
+
+
+def model_step(canon, op):
+    """(abstract state, op) -> (abstract state after, expected)"""
+    r = _STEP.get((canon, op))
+    if r is None:
+        m, expected = model_apply(ListModel(canon), op)
+        r = _STEP[(canon, op)] = (m.canon(), expected)
+    return r
+
+
+def model_obs(canon, keys):
+    r = _OBS.get(canon)
+    if r is None:
+        r = _OBS[canon] = model_observe(ListModel(canon), keys)
+    return r
+
+
 # ------------------------------------------------------------------------------------------------ real side
 
 def build(init):
@@ -230,44 +252,51 @@ def compare(op, expected, observed, mobs, robs, rerr):
     return None
 
 
-def exec_case(case, info=None):
-    """Run one case on a fresh object and a fresh model.  -> list of (sig, expected, observed).
+def execute(keys, init, prefix, hist, every, info=None):
+    """Run one history on a fresh object, the model alongside.  -> list of (sig, expected, observed).
 
-    case = {keys, init, prefix, history, observe}: ``prefix`` is replayed without any observation (its steps
-    were checked as cases of their own); the steps of ``history`` are checked: outcome of every step, and the
-    complete projection after every step (observe == 'every') or after the last one (observe == 'end').
-    """
-    keys = case["keys"]
-    d = build(case["init"])
-    m = ListModel(case["init"][1])
-    for op in case["prefix"]:
-        op = tuple(op)
+    ``prefix`` is replayed without any observation (its steps were checked as cases of their own); the steps
+    of ``hist`` are checked: the outcome of every step, and the complete projection after every step
+    (every=True) or after the last one only."""
+    d = build(init)
+    c = ListModel(init[1]).canon()
+    for op in prefix:
         d, _ = real_apply(d, op)
-        m, _ = model_apply(m, op)
-    hist = [tuple(op) for op in case["history"]]
-    every = case["observe"] == "every"
+        c, _ = model_step(c, op)
     if not hist:
         robs, rerr = real_observe(d, keys)
-        bad = compare(None, ("ok", None), ("ok", None), model_observe(m, keys), robs, rerr)
+        bad = compare(None, ("ok", None), ("ok", None), model_obs(c, keys), robs, rerr)
         return [bad] if bad else []
+    n = len(hist)
     for i, op in enumerate(hist):
-        before = m.canon()
+        before = c
         d, observed = real_apply(d, op)
-        m, expected = model_apply(m, op)
-        last = i == len(hist) - 1
-        if every or last:
+        c, expected = model_step(c, op)
+        if i == n - 1:
             robs, rerr = real_observe(d, keys)
-            bad = compare(op, expected, observed, model_observe(m, keys), robs, rerr)
+            bad = compare(op, expected, observed, model_obs(c, keys), robs, rerr)
+        elif every:
+            robs, rerr = real_observe(d, keys)
+            bad = compare(op, expected, observed, model_obs(c, keys), robs, rerr)
         else:
             bad = compare(op, expected, observed, None, None, None)
         if bad:
             return [bad]
-        if last and info is not None:
-            info["outcome"] = op[0] + ":" + ("/".join(sorted(expected[1])) if expected[0] == "exc" else
-                                             ("changed" if m.canon() != before else "unchanged"))
-            info["nontrivial"] = expected[0] == "exc" or m.canon() != before
-            info["canon"] = m.canon()
+    if info is not None:
+        info["outcome"] = op[0] + ":" + ("/".join(sorted(expected[1])) if expected[0] == "exc" else
+                                         ("changed" if c != before else "unchanged"))
+        info["nontrivial"] = expected[0] == "exc" or c != before
     return []
+
+
+def _ops(l):
+    return [tuple(op) for op in l]
+
+
+def exec_case(case, info=None):
+    """case = {keys, init, prefix, history, observe ('end' | 'every')}"""
+    return execute(case["keys"], case["init"], _ops(case["prefix"]), _ops(case["history"]),
+                   case["observe"] == "every", info)
 
 
 # ------------------------------------------------------------------------------------------------ exploration
@@ -290,8 +319,7 @@ def abstract_states(keys, vals):
         for c in frontier:
             i, h = seen[c]
             for op in ops:
-                m, exp = model_apply(ListModel(c), op)
-                c2 = m.canon()
+                c2, _exp = model_step(c, op)
                 if c2 not in seen:
                     seen[c2] = (i, h + [op])
                     order.append(c2)
@@ -311,7 +339,7 @@ def units(tier, seed):
             out.append({"mode": "tree", "init": i, "first": f})
     states, _depth = abstract_states(keys, vals)
     for n, (c, i, h) in enumerate(states):
-        out.append({"mode": "graph", "state": n, "init": i, "rep": [list(op) for op in h]})
+        out.append({"mode": "graph", "state": n, "init": i, "rep": list(h)})
     return out
 
 
@@ -331,25 +359,28 @@ def run_unit(u, tier, seed):
     else:
         depth, prefix, observe, firsts = GRAPH_TREE_DEPTH, u["rep"], "every", ops
     part.max_depth = len(prefix) + depth
+    prefix = _ops(prefix)
     base = {"keys": keys, "init": init, "prefix": prefix, "observe": observe}
 
+    every = observe == "every"
+
     def run(hist):
-        case = dict(base, history=[list(op) for op in hist])
+        case = None
         info = {}
-        bad = exec_case(case, info)
+        bad = execute(keys, init, prefix, hist, every, info)
         part.transitions += 1
         part.traces += 1
         part.evaluations += 1
         part.extra["operation applications on real objects, replayed prefixes included"] += len(prefix) + len(hist)
         for sig, exp, obs in bad:
-            part.violation(sig, case, exp, obs)
+            part.violation(sig, dict(base, history=list(hist)), exp, obs)
         if bad:
             part.outcomes["VIOLATION:" + bad[0][0]] += 1
-            return None
+            return False
         if hist:
             part.outcomes[info["outcome"]] += 1
             part.nontrivial += bool(info["nontrivial"])
-        return case
+        return True
 
     # the start state itself (tree: once per initial paragraph; graph: every abstract state)
     if u["mode"] == "graph" or u["first"] == 0:
@@ -357,19 +388,18 @@ def run_unit(u, tier, seed):
         if u["mode"] == "graph":
             part.states += 1
             part.extra["abstract states rebuilt on a real object"] += 1
-            if ok is None:
+            if not ok:
                 return part
 
     def rec(hist):
         for op in (firsts if not hist else ops):
             h2 = hist + [op]
-            case = run(h2)
-            if case is None:
+            if not run(h2):
                 continue
             if len(h2) < depth:
                 rec(h2)
             elif op == ops[-1] and len(part.samples) < 2:
-                part.sample(case)
+                part.sample(dict(base, history=list(h2)))
     rec([])
     return part
 
